@@ -45,4 +45,60 @@ theorem reshape_graph_flat (env) (x : TG) (rank : Nat) (target : List Nat)
 
 example : (onnxReshape (tokens [2, 3]) [3, 2]).toFlat = (tokens [2, 3]).toFlat := by decide
 
+theorem eraseIdx_set_same {β : Type} (l : List β) (a : Nat) (v : β) : (l.set a v).eraseIdx a = l.eraseIdx a := by
+  induction l generalizing a with
+  | nil => simp
+  | cons x l ih =>
+    cases a with
+    | zero => simp
+    | succ a => simp [ih]
+
+theorem set_prefix {β : Type} (pre post : List β) (v w : β) : (pre ++ v :: post).set pre.length w = pre ++ w :: post := by
+  induction pre with
+  | nil => rfl
+  | cons p pre ih => simp [ih]
+
+theorem getD_prefix {β : Type} (pre post : List β) (v d : β) : (pre ++ v :: post).getD pre.length d = v := by
+  induction pre with
+  | nil => rfl
+  | cons p pre ih => simpa using ih
+
+/-- **`stack([x, y], axis)` at graph level** (`Concat` of two `Unsqueeze`s): a new axis of extent 2 at NumPy's position;
+index 0 along it reads `x`, index 1 reads `y`, at the remaining coordinates. -/
+theorem stack_graph_correct (env) (x y : TG) (axis : Int) (hs : (x.eval env).shape = (y.eval env).shape)
+    (ha : normAxis ((x.eval env).rank + 1) axis ≤ (x.eval env).rank) :
+    ((stackGraph x y axis).eval env).shape
+      = (x.eval env).shape.take (normAxis ((x.eval env).rank + 1) axis) ++ 2 :: (x.eval env).shape.drop (normAxis ((x.eval env).rank + 1) axis) ∧
+    ∀ ix, ((stackGraph x y axis).eval env).get ix
+        = if ix.getD (normAxis ((x.eval env).rank + 1) axis) 0 < 1 then (x.eval env).get (ix.eraseIdx (normAxis ((x.eval env).rank + 1) axis))
+          else (y.eval env).get (ix.eraseIdx (normAxis ((x.eval env).rank + 1) axis)) := by
+  generalize hA : normAxis ((x.eval env).rank + 1) axis = a at ha
+  have hx := expandDims_graph_correct env x axis
+  have hy := expandDims_graph_correct env y axis
+  have hry : (y.eval env).rank = (x.eval env).rank := by simp [Tensor.rank, hs]
+  simp only [expandDimsGraph] at hx hy
+  rw [hry, ← hs] at hy
+  rw [hA] at hx hy
+  simp only [stackGraph, TG.eval] at hx hy ⊢
+  rw [hx, hy]
+  have htl : ((x.eval env).shape.take a).length = a := by
+    simp only [List.length_take, Tensor.rank] at ha ⊢; omega
+  have hrank : (List.take a (x.eval env).shape ++ 1 :: List.drop a (x.eval env).shape).length = (x.eval env).rank + 1 := by
+    simp only [List.length_append, List.length_cons, List.length_take, List.length_drop, Tensor.rank] at ha ⊢; omega
+  simp only [concatOp, Tensor.rank, hrank]
+  rw [show normAxis ((x.eval env).shape.length + 1) axis = a from hA]
+  constructor
+  · have := set_prefix ((x.eval env).shape.take a) ((x.eval env).shape.drop a) 1 (1 + 1)
+    rw [htl] at this
+    have hg := getD_prefix ((x.eval env).shape.take a) ((x.eval env).shape.drop a) 1 0
+    rw [htl] at hg
+    rw [hg, this]
+  · intro ix
+    have hg := getD_prefix ((x.eval env).shape.take a) ((x.eval env).shape.drop a) 1 0
+    rw [htl] at hg
+    rw [hg]
+    split
+    · rfl
+    · rw [eraseIdx_set_same]
+
 end Ndx.TGraph
